@@ -120,19 +120,21 @@ Proof.
 Qed.
 
 (* C06, end to end for an (uncached) snapshot: what the SubRip writer puts into the cues of the snapshot at t is the visible text
-   Spec/CueSpec.v prescribes for t (all of it, ruby annotations included: under the trigger there is no text below ruby) *)
+   Spec/CueSpec.v prescribes for t — stated here for snapshots without annotation text (then `vis true` = `vis false`); the general
+   case is Proofs/C06/BaseSpec.v *)
 Theorem srt_snapshot_spec d t fmt b en n regions cs n' :
   Forall (fun r => e_kind (eattrs r) = KRegion) (d_regions d) ->
   match d_body d with Some bd => leaf_wf bd = true /\ leaves_in_p bd = true | None => True end ->
   isd d t = Ok regions -> snapshot_shape regions = true -> srt_sees_all (apply_filters srt_filters regions) = true ->
+  flat_map base_text regions = flat_map leaves_text regions ->
   srt_add_isd fmt b en (apply_filters srt_filters regions) n = (cs, n') ->
   visc (flat_map Model.CueTriggers.cue_chars cs) = visc (tok_chars (vis true d t)).
 Proof.
-  intros Hk Hb Hi Hs Hok Hc.
+  intros Hk Hb Hi Hs Hok Hna Hc.
   assert (Hb1 : match d_body d with Some bd => leaf_wf bd = true | None => True end) by (destruct (d_body d); [apply Hb | exact I]).
   assert (Hb2 : match d_body d with Some bd => leaves_in_p bd = true | None => True end) by (destruct (d_body d); [apply Hb | exact I]).
   rewrite (vis_leaves d t Hb2), visc_nb, <- (isd_leaves d t regions Hk Hb1 Hi).
   destruct (Proofs.C06.Loop.srt_add_isd_spec fmt b en _ n cs n' Hc) as [_ H]. rewrite (H Hok).
-  destruct srt_filters_form as (c0 & d0 & Hf). rewrite Hf, (filters_preserve_text true c0 d0 regions Hs).
+  destruct srt_filters_form as (c0 & d0 & Hf). rewrite Hf, (filters_preserve_base true c0 d0 regions Hs), Hna.
   unfold leaves_text. rewrite <- (flat_map_flat_map shown_leaves leaf_chars). reflexivity.
 Qed.
